@@ -121,13 +121,13 @@ def run(ctx):
     quick = ctx.tier == 'quick'
     import tgen, tr_sym
     info = tr_sym.translate(vlib.REPO)
-    ctx.cov['rule'] = ('fusion cases (tools/tgen.py kind fuse: random partitions/orders of legs into groups, hard/meta/mixed, depth 2, operations over fused legs with '
+    ctx.cov['rule'] = ('fusion cases (tools/tgen.py kinds fuse and trace (over hard-fused pairs): random partitions/orders of legs into groups, hard/meta/mixed, depth 2, operations over fused legs with '
                        'partners of equal/overlapping/disjoint sector content), block cases (direct sums along a leg, nested, nested with sectors lost after '
                        'blocking), operation sequences with fuse/unfuse, incompatible fusions; fused-leg structure vs Coq model. non-trivial = operand with '
                        '>= 1 block; distinct by (kind, seed)')
     n = 600 if quick else 10000
     base = ctx.seed % 1000 * 100000
-    jobs = [(k, s, {}, 'plain') for k in ('fuse', 'block', 'chain') for s in range(base, base + n)]
+    jobs = [(k, s, {}, 'plain') for k in ('fuse', 'block', 'chain', 'trace') for s in range(base, base + n)]      # trace: over hard-fused pairs (tgen trace_fused)
     jobs += [('fuse', s, dict(mode=m), 'plain') for m in ('hard', 'meta') for s in range(base + n, base + n + n // 3)]
     recs = tcheck.run_jobs(jobs)
     for r in recs:
